@@ -739,3 +739,27 @@ fn exp_parse_body() {
     }
     core::mem::forget(r);
 }
+
+#[cfg(kani)]
+#[kani::proof]
+#[kani::stub(alloc::fmt::format, crate::c06::stub_format)]
+#[kani::stub(ahash::RandomState::new, crate::csvstub::stub_random_state_new)]
+#[kani::stub(core::str::from_utf8, crate::csvstub::stub_from_utf8)]
+#[kani::stub(core::slice::memchr::memchr, crate::csvstub::stub_memchr)]
+#[kani::stub(std::collections::hash_map::RandomState::new, crate::csvstub::stub_std_random_state_new)]
+fn exp_chardef() {
+    let text: &[u8] = b"DEFAULT 0 1 0\nX 1 0 2\n0x0001..0x0002 X\n0xFFFF X\n\0";
+    let r = CharProperty::from_reader(&text[..text.len() - 1]);
+    match &r {
+        Ok(p) => {
+            let c: char = kani::any();
+            let info = p.char_info(c);
+            let cp = c as u32;
+            let is_x = cp == 1 || cp == 2 || cp == 0xFFFF;
+            assert!(info.base_id() == if is_x { 1 } else { 0 });
+            kani::cover!(cp == 0xFFFF);
+        }
+        Err(_) => assert!(false, "rejected"),
+    }
+    core::mem::forget(r);
+}
